@@ -293,6 +293,21 @@ def run(repo, rep, tier):
         and "is_table_unique|=self.table_name_unique[table_name]" in s2 and "ifself.from_sheet_id==self.to_sheet_idoris_table_unique:returnf'{table_name}::{ref_str}'" in s2
     rep.ob("C09.R4", ex, "expand_ref qualifies with the *target* table/sheet names: none (same table), table, or sheet::table", ok,
            "" if ok else "prefix decision altered", key="C09.R4@expand_ref:prefix")
+    # the absolute marker belongs to the name: it is added before the name is quoted ('$10%', never $'10%')
+    from ..symexec import Straight
+    sl_ = Straight(ex)
+    rets_ = [n for n in body_walk(ex) if isinstance(n, ast.Return) and n.value is not None]
+    bad_q = []
+    for r_ in rets_:
+        v_ = sl_.at(r_, r_.value)
+        for j in [n for n in ast.walk(v_) if isinstance(n, ast.JoinedStr) and n.values and isinstance(n.values[0], ast.Constant) and str(n.values[0].value).startswith("$")]:
+            inner = [q for fv in j.values if isinstance(fv, ast.FormattedValue) for q in ast.walk(fv.value)
+                     if isinstance(q, ast.JoinedStr) and q.values and isinstance(q.values[0], ast.Constant) and str(q.values[0].value).startswith("'")]
+            if inner:
+                bad_q.append(r_.lineno)
+    rep.ob("C09.R4", ex, "expand_ref: a quoted name carries its `$` inside the quotes", not bad_q,
+           "" if not bad_q else f"returns at lines {sorted(set(bad_q))} put the absolute marker in front of the opening quote: the printed reference is not accepted back by the formula tokenizer",
+           key="C09.R4@expand_ref:abs-inside-quotes")
     ssi = repo.func("xrefs.py", "CellRange._set_sheet_ids")
     s = U(ssi).replace(" ", "").replace("\n", "")
     ok = "ifself.to_table_idisNone:self.to_table_id=self.from_table_id" in s and "self.from_sheet_id=self.model.table_id_to_sheet_id(self.from_table_id)" in s and "self.to_sheet_id=self.model.table_id_to_sheet_id(self.to_table_id)" in s
@@ -313,6 +328,22 @@ VARIANTS = [
     M("cellrange-swapped-ends", "model.py", "                row_end=None if row_end == 0x7FFFFFFF else row_end,\n                col_start=None if col_begin == 0x7FFF else col_begin,", "                row_end=None if row_begin == 0x7FFFFFFF else row_begin,\n                col_start=None if col_begin == 0x7FFF else col_begin,", "C09.R1"),
     M("cell-relative-no-host", "model.py", "row = node.AST_row.row if node.AST_row.absolute else row + node.AST_row.row", "row = node.AST_row.row if node.AST_row.absolute else col + node.AST_row.row", "C09.R2"),
     M("format-cell-abs-swapped", "xrefs.py", "                        row_end,\n                        col_end,\n                        row_abs=self.row_end_is_abs,\n                        col_abs=self.col_end_is_abs,", "                        row_end,\n                        col_end,\n                        row_abs=self.col_end_is_abs,\n                        col_abs=self.row_end_is_abs,", "C09.R"),
+    M("abs-marker-after-quoting", "xrefs.py", """        if isinstance(ref, ScopedNameRef):
+            ref_str = f"${ref.name}" if is_abs else ref.name
+        else:
+            ref_str = f"${ref}" if is_abs else ref
+        if any(x in ref_str for x in OPERATOR_PRECEDENCE):
+            ref_str = f"'{ref_str}'"
+        elif "'" in ref_str:
+            ref_str = ref_str.replace("'", "'''")
+""", """        ref_str = ref.name if isinstance(ref, ScopedNameRef) else ref
+        if any(x in ref_str for x in OPERATOR_PRECEDENCE):
+            ref_str = f"'{ref_str}'"
+        elif "'" in ref_str:
+            ref_str = ref_str.replace("'", "'''")
+        if is_abs:
+            ref_str = f"${ref_str}"
+""", "C09.R4"),
     M("row-span-end-abs", "xrefs.py", "self.expand_ref(str(row_end + 1), self.row_end_is_abs, no_prefix=True),", "self.expand_ref(str(row_end + 1), self.row_start_is_abs, no_prefix=True),", "C09.R3"),
     M("stale-table-names", "xrefs.py", "self._table_names = self.model.table_names()", "self._table_names = self.model.name_ref_cache.table_names", "C09.R4"),
     M("write-no-invalidate-cols", "document.py", "        if row < self._model.num_header_rows(self._table_id) or col < self._model.num_header_cols(\n            self._table_id,\n        ):", "        if row < self._model.num_header_rows(self._table_id):", "C09.R4"),
